@@ -394,7 +394,8 @@ def _c20() -> List[Obl]:
         out.append(Obl(id=f"c20.verus.golomb.{fn}", prop="C20", engine="verus", target=f"golomb:{fn}", fns=["codes::golomb::len_golomb"] if not fn.startswith("lemma") else [],
                        note="every modulus in 1..2^64 and every pair of values: len_golomb is non-decreasing (via its proved closed form)"))
     for t, b in (("single_step", "step positions 0..5, 2^k and 2^k +- 1 up to 2^63, beyond 2^63, near 2^64"), ("two_steps", "pairs of step positions on a grid"),
-                 ("library_lengths", "first 200 change points of len_gamma, len_delta, len_omega, len_zeta(_, 3)")):
+                 ("library_lengths", "first 200 change points of len_gamma, len_delta, len_omega, len_zeta(_, 3)"),
+                 ("zero_first_plateau", "functions with f(0) = 0: constant zero and one step at each grid position")):
         out.append(Obl(id=f"c20.fcp.native.{t}", prop="C20", engine="native", target=f"c20_fcp:c20_fcp_{t}", kind="bounded",
                        bound="concrete execution: " + b, fns=["FindChangePoints::{new,next}"],
                        note="paired with the Verus obligation c20.fcp.next (which decides every monotone function) to provide failing inputs"))
